@@ -51,6 +51,7 @@ def main(tier: str, seed: int, replay: str | None = None) -> int:
     rep.proof_stage("C17_parser")   # the parser model never crashes on any token list
     rep.proof_stage("C05_fix")      # C17_term_P_*: explicit fuel bounds for unify/apply/fix without constraints
     rep.proof_stage("C17_term")     # ... and with subtype constraints: every such program ends with a result or a declared error
+    rep.proof_stage("C17_term_elim")  # ... and with elimination constraints over base alternatives (nesting bounded by the unfulfilled constraints)
     rng = random.Random(seed)
     nh, npg = (15, 60) if tier == "quick" else (120, 100)
     items = []
